@@ -236,3 +236,11 @@ Proof. rewrite skipn_app, Nat.sub_diag, skipn_all. reflexivity. Qed.
 Definition frev {A} (l : list A) : list A := rev_append l [].
 Lemma frev_rev {A} (l : list A) : frev l = rev l.
 Proof. unfold frev. symmetry. apply rev_alt. Qed.
+
+Fixpoint opt_all {A} (l : list (option A)) : option (list A) :=
+  match l with
+  | [] => Some []
+  | Some x :: r => option_map (cons x) (opt_all r)
+  | None :: _ => None
+  end.
+
